@@ -209,6 +209,96 @@ Proof. intros Hb. apply (deserialize_pair (VStr p) _ b (decode_b64 b Hb)). Qed.
 Theorem deserialize_above_limit p : deserialize_file (above_limit_result p) = Ans (VStr p, PLACEHOLDER).
 Proof. apply (deserialize_pair (VStr p) _ _ decode_placeholder). Qed.
 
+(** ---- the file system state ---- *)
+Lemma fs_get_set_same p c fs : fs_get p (fs_set p c fs) = Some c.
+Proof.
+  unfold fs_get. induction fs as [|[q d] r IH]; cbn.
+  - rewrite str_eqb_refl. reflexivity.
+  - destruct (str_eqb p q) eqn:E; cbn; [rewrite str_eqb_refl; reflexivity|]. rewrite E. exact IH.
+Qed.
+
+Lemma fs_get_set_other p q c fs : q <> p -> fs_get q (fs_set p c fs) = fs_get q fs.
+Proof.
+  intros N. unfold fs_get. apply str_eqb_neq in N.
+  induction fs as [|[q' d] r IH]; cbn.
+  - rewrite N. reflexivity.
+  - destruct (str_eqb p q') eqn:E; cbn.
+    + apply str_eqb_eq in E. subst q'. rewrite N. reflexivity.
+    + destruct (str_eqb q q'); [reflexivity|exact IH].
+Qed.
+
+Lemma fs_set_set p a b fs : fs_set p b (fs_set p a fs) = fs_set p b fs.
+Proof.
+  induction fs as [|[q d] r IH]; cbn.
+  - rewrite str_eqb_refl. reflexivity.
+  - destruct (str_eqb p q) eqn:E; cbn; [rewrite str_eqb_refl; reflexivity|]. rewrite E, IH. reflexivity.
+Qed.
+
+Lemma write_at0_empty b : write_at0 [] b = b.
+Proof. unfold write_at0. rewrite skipn_nil. apply app_nil_r. Qed.
+
+(** opening for writing and then writing b leaves exactly b, whatever the file held before
+    (longer, shorter, equal, absent): the truncation of "wb" is what makes this true *)
+Lemma write_after_open p b fs : write_file p b (open_wb p fs) = fs_set p b fs.
+Proof.
+  unfold write_file, open_wb. rewrite fs_get_set_same, write_at0_empty. apply fs_set_set.
+Qed.
+
+(** without the truncation the old tail would survive *)
+Lemma write_without_truncate_keeps_tail old b :
+  (length b < length old)%nat -> write_at0 old b <> b.
+Proof.
+  intros L E. unfold write_at0 in E.
+  assert (length (b ++ skipn (length b) old) = length b) as EL by (rewrite E; reflexivity).
+  rewrite app_length, skipn_length in EL. lia.
+Qed.
+
+(** one restore, on ANY previous state: the replayed path holds exactly the decoded bytes afterwards,
+    every other path is untouched *)
+Lemma restore_input_sets h writable recorded args kwargs fs p pth b :
+  passes_path h args kwargs p -> writable p = true -> deserialize_file recorded = Ans (pth, b) ->
+  restore_input h writable recorded args kwargs fs = (Ans p, fs_set p b fs).
+Proof.
+  intros P W D. unfold restore_input. rewrite (get_path_passes _ _ _ _ P), W, D.
+  rewrite write_after_open. reflexivity.
+Qed.
+
+(** several recordings replayed one after another into the same path: the last one wins, byte for byte,
+    whatever the earlier ones (longer, shorter, even undecodable) and the initial state were *)
+Lemma restore_all_app h writable r1 r2 args kwargs fs :
+  restore_all h writable (r1 ++ r2) args kwargs fs =
+  restore_all h writable r2 args kwargs (restore_all h writable r1 args kwargs fs).
+Proof. revert fs. induction r1 as [|r rs IH]; intros fs; cbn; [reflexivity|apply IH]. Qed.
+
+Theorem restore_sequence_last h writable recs recorded args kwargs fs p pth b :
+  passes_path h args kwargs p -> writable p = true -> deserialize_file recorded = Ans (pth, b) ->
+  fs_get p (restore_all h writable (recs ++ [recorded]) args kwargs fs) = Some b.
+Proof.
+  intros P W D. rewrite restore_all_app. cbn [restore_all].
+  rewrite (restore_input_sets _ _ _ _ _ _ _ _ _ P W D). cbn [snd]. apply fs_get_set_same.
+Qed.
+
+Theorem restore_sequence_others h writable recs args kwargs fs p q :
+  passes_path h args kwargs p -> q <> p ->
+  fs_get q (restore_all h writable recs args kwargs fs) = fs_get q fs.
+Proof.
+  intros P N. revert fs. induction recs as [|r rs IH]; intros fs; cbn [restore_all]; [reflexivity|].
+  rewrite IH. unfold restore_input. rewrite (get_path_passes _ _ _ _ P).
+  destruct (writable p); [|reflexivity].
+  destruct (deserialize_file r) as [[pth c]|e]; cbn [snd].
+  - rewrite write_after_open. apply fs_get_set_other. exact N.
+  - unfold open_wb. apply fs_get_set_other. exact N.
+Qed.
+
+(** replaying the same recording twice gives the same file system as replaying it once *)
+Theorem restore_twice h writable recorded args kwargs fs p pth b :
+  passes_path h args kwargs p -> writable p = true -> deserialize_file recorded = Ans (pth, b) ->
+  restore_all h writable [recorded; recorded] args kwargs fs = restore_all h writable [recorded] args kwargs fs.
+Proof.
+  intros P W D. cbn [restore_all]. rewrite !(restore_input_sets _ _ _ _ _ _ _ _ _ P W D). cbn [snd].
+  apply fs_set_set.
+Qed.
+
 (** ---- through the cassette ---- *)
 Section Trip.
   Variable qp : list N -> str.
@@ -252,17 +342,17 @@ Section Trip.
 
   (** input handler: the bytes read while recording are written, unchanged, at the path named by the
       REPLAYED call - whatever the recorded path was *)
-  Theorem input_roundtrip h args_rec kw_rec args_play kw_play p_rec p_play b :
+  Theorem input_roundtrip h args_rec kw_rec args_play kw_play p_rec p_play b fs_play :
     passes_path h args_rec kw_rec p_rec -> passes_path h args_play kw_play p_play ->
     str_ok p_rec = true -> within_limit h fsize p_rec -> fread p_rec = Ans b -> bytes_ok b = true ->
     writable p_play = true ->
-    input_trip h fsize fread writable qp qp_dec args_rec kw_rec args_play kw_play
-    = (Replayed (Ans p_play, [(p_play, b)]), [p_rec]).
+    input_trip h fsize fread writable qp qp_dec args_rec kw_rec args_play kw_play fs_play
+    = (Replayed (Ans p_play, fs_set p_play b fs_play), [p_rec]).
   Proof.
     intros P1 P2 Hp W R Hb Wr. unfold input_trip.
     rewrite (intercept_within _ _ _ _ _ _ _ P1 W R).
     destruct (trip_serialized b p_rec Hp Hb) as [v' [T D]]. rewrite T.
-    unfold restore_input. rewrite (get_path_passes _ _ _ _ P2), Wr, D. reflexivity.
+    rewrite (restore_input_sets _ _ _ _ _ _ _ _ _ P2 Wr D). reflexivity.
   Qed.
 
   (** output handler: the holder built from the stored recording carries exactly the bytes *)
@@ -279,17 +369,17 @@ Section Trip.
 
   (** above the limit: nothing is opened for reading, the recording holds the placeholder (and the
       placeholder is what a replay materialises) *)
-  Theorem input_above_limit h args_rec kw_rec args_play kw_play p_rec p_play :
+  Theorem input_above_limit h args_rec kw_rec args_play kw_play p_rec p_play fs_play :
     passes_path h args_rec kw_rec p_rec -> passes_path h args_play kw_play p_play ->
     str_ok p_rec = true -> beyond_limit h fsize p_rec -> writable p_play = true ->
     intercept_file h fsize fread args_rec kw_rec = (Ans (above_limit_result p_rec), []) /\
-    input_trip h fsize fread writable qp qp_dec args_rec kw_rec args_play kw_play
-    = (Replayed (Ans p_play, [(p_play, PLACEHOLDER)]), []).
+    input_trip h fsize fread writable qp qp_dec args_rec kw_rec args_play kw_play fs_play
+    = (Replayed (Ans p_play, fs_set p_play PLACEHOLDER fs_play), []).
   Proof.
     intros P1 P2 Hp B Wr. pose proof (intercept_beyond _ _ fread _ _ _ P1 B) as I. split; [exact I|].
     unfold input_trip. rewrite I.
     destruct (trip_above p_rec Hp) as [v' [T D]]. rewrite T.
-    unfold restore_input. rewrite (get_path_passes _ _ _ _ P2), Wr, D. reflexivity.
+    rewrite (restore_input_sets _ _ _ _ _ _ _ _ _ P2 Wr D). reflexivity.
   Qed.
 
   Theorem output_above_limit h args kwargs p :
@@ -299,6 +389,17 @@ Section Trip.
     intros P Hp B. unfold output_trip. rewrite (intercept_beyond _ _ fread _ _ _ P B).
     destruct (trip_above p Hp) as [v' [T D]]. rewrite T.
     unfold restore_output. rewrite D. reflexivity.
+  Qed.
+  (** replaying, after any number of other recordings (of longer, shorter, equal or no content), the stored
+      recording of a file with bytes b into the same path leaves exactly b there *)
+  Theorem stored_sequence_last h recs args kwargs fs p p_rec b v' :
+    passes_path h args kwargs p -> writable p = true -> str_ok p_rec = true -> bytes_ok b = true ->
+    cassette_trip qp qp_dec (serialize_file b p_rec) = Some v' ->
+    fs_get p (restore_all h writable (recs ++ [v']) args kwargs fs) = Some b.
+  Proof.
+    intros P W Hp Hb T. destruct (trip_serialized b p_rec Hp Hb) as [v'' [T' D]].
+    rewrite T in T'. inversion T'; subst v''.
+    apply (restore_sequence_last _ _ _ _ _ _ _ _ _ _ P W D).
   Qed.
 End Trip.
 
@@ -367,14 +468,14 @@ Qed.
     above-limit record) and comes back as that file *)
 Theorem input_roundtrip_placeholder_content
   (qp : list N -> str) (qp_dec : str -> list N) (qp_roundtrip : forall b, qp_dec (qp b) = b)
-  fsize fread writable h args_rec kw_rec args_play kw_play p_rec p_play :
+  fsize fread writable h args_rec kw_rec args_play kw_play p_rec p_play fs_play :
     passes_path h args_rec kw_rec p_rec -> passes_path h args_play kw_play p_play ->
     str_ok p_rec = true -> within_limit h fsize p_rec -> fread p_rec = Ans PLACEHOLDER ->
     writable p_play = true ->
     fst (intercept_file h fsize fread args_rec kw_rec) = Ans (serialize_file PLACEHOLDER p_rec) /\
     serialize_file PLACEHOLDER p_rec <> above_limit_result p_rec /\
-    input_trip h fsize fread writable qp qp_dec args_rec kw_rec args_play kw_play
-    = (Replayed (Ans p_play, [(p_play, PLACEHOLDER)]), [p_rec]).
+    input_trip h fsize fread writable qp qp_dec args_rec kw_rec args_play kw_play fs_play
+    = (Replayed (Ans p_play, fs_set p_play PLACEHOLDER fs_play), [p_rec]).
 Proof.
   intros P1 P2 Hp W R Wr. split; [|split].
   - rewrite (intercept_within _ _ _ _ _ _ _ P1 W R). reflexivity.
